@@ -64,7 +64,12 @@ def seedtable():
         db = m.get('detected_by')
         if isinstance(db, dict):
             n += 1; det += bool(db.get('detected'))
-            res = ('**VIOLATION**' if db.get('detected') else ('missed' if db.get('detected') is False else 'not run')) + ' (' + db['check'] + ')'
+            conf0 = m.get('confirmed', {}).get('result_at_head') or ''
+            if 'demo-with-patch=0' in conf0 and not db.get('detected'):
+                res = 'does not manifest on the current HEAD (its own demonstration passes with the change applied); not counted'
+                n -= 1
+            else:
+                res = ('**VIOLATION**' if db.get('detected') else ('missed' if db.get('detected') is False else 'not run')) + ' (' + db['check'] + ')'
         else:
             res = 'not run yet'
         conf = m.get('confirmed', {}).get('result_at_head') or m.get('confirmed', {}).get('result', '')
